@@ -270,13 +270,12 @@ theorem C09_withlen_fresh_between_frames_of_eof_reset (hE : SwimVerif.Generated.
   ⟨WL_decode_fresh hE fuel w src h, WL_header_fresh hE fuel w src h⟩
 
 open SwimVerif.ReconInc in
-/-- Open — and *false for the code as it is* (finding C09-N5, `fixes/C09-N5.patch`): `decode_eof` starts with
-`read_utf8(buf)?`, which returns before `self.reset()`; a frame whose last piece is not UTF-8 leaves the parser stack
-and the half-built value of its earlier pieces in the decoder, and the next frame continues them (witness in
-`corpus/C09/chunks-N5.ops`; the model reproduces it, `chunksm`).  With the patch the extracted flag flips and this is
-`C09_withlen_fresh_between_frames_of_eof_reset rfl`. -/
-def C09_withlen_fresh_between_frames_open : Prop :=
-  ∀ (fuel : Nat) (w : WL) (src : List Nat), WLFresh w → WLFresh (WL.decode fuel w src).1
+/-- **`WithLenRecognizerDecoder` is fresh between frames** (unconditional since 69c2062, which makes `decode_eof` reset
+before returning `BadUtf8` — finding C09-N5; the extracted flag `eofBadUtf8Resets` is now `true`): whatever a frame
+held and however the stream was cut, between frames and while skipping the rest of a frame the inner decoder is fresh. -/
+theorem C09_withlen_fresh_between_frames (fuel : Nat) (w : WL) (src : List Nat) (h : WLFresh w) :
+    WLFresh (WL.decode fuel w src).1 ∧ ((WL.decode fuel w src).1.state = .header → (WL.decode fuel w src).1 = {}) :=
+  C09_withlen_fresh_between_frames_of_eof_reset rfl fuel w src h
 
 example : SwimVerif.ReconInc.rawRun {} [] ["@a(1".toList, "2) {x".toList, ":".toList, " \"y\"}".toList] =
     SwimVerif.ReconInc.rawRun {} [] ["@a(1".toList ++ ["2) {x".toList, ":".toList, " \"y\"}".toList].flatten] :=
